@@ -9,6 +9,7 @@ other test is unconstrained.
 """
 
 import ast
+import copy
 
 from ..model import (walk, dotted, call_name, kwarg, unparse, short, UNKNOWN,
                      root_name, AnalysisError, calls_in, stores_in_target)
@@ -2155,11 +2156,28 @@ class CtxEval:
         if isinstance(v, ast.Dict):
             d = {}
             for k, x in zip(v.keys, v.values):
-                kk = self.const(k) if k is not None else None
+                if k is None:
+                    # `{..., **other}`: the entries of a dict which can be
+                    # followed are merged in place (later entries win)
+                    sub = self.as_dict(x)
+                    if sub is None:
+                        d['?'] = (frozenset(), v)
+                    else:
+                        d.update(sub)
+                    continue
+                kk = self.const(k)
                 if isinstance(kk, str):
                     d[kk] = (self.origin(x), x)
                 else:
                     d['?'] = (frozenset(), v)
+            return d
+        if isinstance(v, ast.BinOp) and isinstance(v.op, ast.BitOr):
+            # `a | b` on two dicts: entries of b win
+            lhs, rhs = self.as_dict(v.left), self.as_dict(v.right)
+            if lhs is None or rhs is None:
+                return None
+            d = dict(lhs)
+            d.update(rhs)
             return d
         if isinstance(v, ast.Name) and v.id in self.dicts:
             return self.dicts[v.id]
@@ -2179,7 +2197,11 @@ class CtxEval:
                 d = dict(base)
                 for kw in v.keywords:
                     if kw.arg is None:
-                        d['?'] = (frozenset(), v)
+                        sub = self.as_dict(kw.value)
+                        if sub is None:
+                            d['?'] = (frozenset(), v)
+                        else:
+                            d.update(sub)
                     else:
                         d[kw.arg] = (self.origin(kw.value), kw.value)
                 return d
@@ -4149,6 +4171,11 @@ def r11_12(prog, rep, rid='R11.12'):
 #         PATH COMPONENT of the parsed argument - the argument itself (and the
 #         string of the parsed URL) still carries `<schema>://`
 #
+SLASH_DROPPERS = {'os.path.normpath', 'os.path.abspath', 'os.path.realpath',
+                  'posixpath.normpath', 'pathlib.Path', 'pathlib.PurePath',
+                  'pathlib.PurePosixPath'}
+
+
 def r11_13(prog, rep, rid='R11.13'):
     rep.rule(rid, 'complete_url: what extends the URL taken from the context '
              'is the path component of the parsed argument (`<parsed>.path`), '
@@ -4300,6 +4327,104 @@ def r11_13(prog, rep, rid='R11.13'):
                 'the path component of its argument: every sandbox URL '
                 'resolves to the sandbox directory itself', f.loc(),
                 history="any directive with target 'task:///x'")
+
+    # --- R11.18: the path component arrives unchanged at its end: a trailing
+    # `/` tells the backends "place the source INTO this directory" (they make
+    # os.path.dirname(target) and copy to the target as it is spelled)
+    rid2 = 'R11.18'
+    rep.rule(rid2, 'complete_url: the path component of the argument reaches '
+             'the resulting URL with its trailing `/` (it is not passed '
+             'through os.path.normpath / abspath / realpath / pathlib or '
+             'strip(\'/\'), which drop it)', minimum=1)
+
+    def ext(e):
+        r = prog.resolve(f.module, e)
+        return r[1] if r and r[0] == 'ext' else None
+
+    def slash_dropper(e):
+        """the operand whose trailing slash the call e drops, or None"""
+        if not isinstance(e, ast.Call):
+            return None
+        if ext(e.func) in SLASH_DROPPERS and e.args:
+            return e.args[0]
+        if isinstance(e.func, ast.Attribute) and \
+                e.func.attr in ('rstrip', 'strip') and len(e.args) == 1 and \
+                isinstance(e.args[0], ast.Constant) and \
+                isinstance(e.args[0].value, str) and '/' in e.args[0].value:
+            return e.func.value
+        return None
+
+    def dropped(e, nid, seen=frozenset()):
+        """[(what loses its trailing slash: 'part' | 'self', call)] among the
+        computations the value of e (read at cfg node nid) is made by"""
+        out = []
+        if isinstance(e, ast.Name):
+            if (e.id, nid) in seen:
+                return out
+            seen = seen | {(e.id, nid)}
+            defs, _ = defs_at(g, e.id, nid)
+            for dn, v in defs:
+                if v is None:
+                    v = getattr(dn.ast, 'value', None)
+                if v is not None:
+                    out += dropped(v, dn.id, seen)
+            return out
+        opd = slash_dropper(e)
+        if opd is not None:
+            k = kinds(opd, nid)
+            if k & {'raw', 'url', 'part'}:
+                out.append(('part', e))
+            elif k & {'base', 'ctx'}:
+                out.append(('self', e))
+        for c in ast.iter_child_nodes(e):
+            if isinstance(c, ast.keyword):
+                out += dropped(c.value, nid, seen)
+            elif isinstance(c, ast.expr):
+                out += dropped(c, nid, seen)
+        return out
+
+    looks = [n for n in _own_nodes(f.node)
+             if isinstance(n, ast.Call) and
+             isinstance(n.func, ast.Attribute) and n.func.attr == 'endswith'
+             and smap.get(id(n)) is not None and
+             kinds(n.func.value, at(n)) & {'raw', 'url', 'part'}]
+    appends = [n for n, v, what in sites
+               if kinds(v, at(n)) & {'raw', 'url', 'part'}]
+    for n, v, what in sites:
+        if not isinstance(n, (ast.Assign, ast.AugAssign)):
+            continue
+        hits = []
+        for kind, call in dropped(v, at(n)):
+            if kind == 'part':
+                hits.append(call)
+            elif any(a is not n and at(n) in g.reachable(at(a))
+                     for a in appends):
+                hits.append(call)
+        if hits and looks:
+            rep.info(rid2, f, 'observation: `%s` normalises the expanded '
+                     'path, the function looks at the trailing slash of its '
+                     'argument itself (`%s`): not decided'
+                     % (short(hits[0], 50), short(looks[0], 50)), f.loc(n))
+            continue
+        if not hits and n not in appends:
+            continue
+        rep.check(not hits, rid2, f,
+                  '%s receives the path component as it is spelled' % what,
+                  construct='trailing slash',
+                  message='complete_url passes the path component of its '
+                  'argument through `%s`, which drops a trailing `/`: a '
+                  'target `task:///inputs/` (a directory to place the source '
+                  'into) resolves to <sandbox>/inputs, the backends make '
+                  'os.path.dirname() of that (the sandbox) and copy the '
+                  'source to a regular FILE called `inputs` instead of '
+                  'inputs/<name>' % (short(hits[0], 60) if hits else ''),
+                  loc=f.loc(n),
+                  history="input directives {source: 'in.dat', target: "
+                  "'task:///inputs/', action: TRANSFER} and {source: "
+                  "'pilot:///shared.dat', target: 'task:///refs/', action: "
+                  "COPY}: the task sandbox holds files `inputs` and `refs`, "
+                  "not inputs/in.dat and refs/shared.dat; the task is "
+                  "advanced")
 
 
 # ------------------------------------------------------------------------------
@@ -4813,6 +4938,278 @@ def r11_16(prog, rep, rid='R11.16'):
                               'a missing source: all three end FAILED')
 
 
+# ------------------------------------------------------------------------------
+# R11.17  pilot level staging (Pilot.stage_in / Pilot.stage_out): the context
+#         which completes a directive's source (target) resolves a relative
+#         path against the documented default and every schema against the
+#         sandbox of that name
+#
+# Pilot.stage_in moves data from the client to the pilot: a source without
+# schema is relative to the client sandbox, a target relative to the pilot
+# sandbox; Pilot.stage_out is the mirror image.  The sandboxes are the values
+# the Session getters hand out; the entry of a context is identified by the
+# getter which feeds it, never by the name of the attribute which holds it.
+#
+PILOT = ('pilot.py', 'Pilot')
+PILOT_GETTER = {'client'  : '_get_client_sandbox',
+                'pilot'   : '_get_pilot_sandbox',
+                'resource': '_get_resource_sandbox',
+                'session' : '_get_session_sandbox',
+                'endpoint': '_get_endpoint_fs'}
+PILOT_PWD = {('stage_in',  'src'): 'client',
+             ('stage_in',  'tgt'): 'pilot',
+             ('stage_out', 'src'): 'pilot',
+             ('stage_out', 'tgt'): 'client'}
+
+
+class _SelfNames(ast.NodeTransformer):
+    """`self.x` -> the name `self.x` (so that attributes of the instance are
+    followed like locals)"""
+
+    def visit_Attribute(self, n):
+        if isinstance(n.value, ast.Name) and n.value.id == 'self':
+            return ast.copy_location(ast.Name(id='self.' + n.attr, ctx=n.ctx),
+                                     n)
+        return self.generic_visit(n)
+
+
+class SelfCtxEval(CtxEval):
+    """CtxEval over a method in which instance attributes count as names;
+    `seed` = dicts known from another method of the class"""
+
+    def __init__(self, prog, f, cls, seed=None):
+        self.prog, self.f, self.cls = prog, f, cls
+        self.consts = {}
+        self.orig   = {}
+        self.dicts  = {k: dict(v) for k, v in (seed or {}).items()}
+        self.tree   = _SelfNames().visit(copy.deepcopy(f.node))
+        self.run(self.tree.body)
+
+
+def r11_17(prog, rep, rid='R11.17'):
+    rep.rule(rid, 'Pilot.stage_in / stage_out complete the source and the '
+             'target of a directive with a context whose `pwd` is the '
+             'documented default (client sandbox on the client side, pilot '
+             'sandbox on the pilot side) and whose schema entries are fed by '
+             'the Session getter of that sandbox', minimum=24)
+    cls = prog.cls(*PILOT)
+    session = prog.cls(*SESSION)
+    for getter in PILOT_GETTER.values():
+        prog.method(SESSION[0], SESSION[1], getter)
+    methods = I.class_methods(prog, cls)
+
+    # stores to instance attributes, per attribute
+    stores = {}
+    for m in methods.values():
+        for n in _own_nodes(m.node):
+            if isinstance(n, ast.Assign):
+                for t in n.targets:
+                    if isinstance(t, ast.Attribute) and \
+                            isinstance(t.value, ast.Name) and \
+                            t.value.id == 'self':
+                        stores.setdefault(t.attr, []).append((m, n.value))
+                    elif isinstance(t, (ast.Tuple, ast.List)):
+                        for e in t.elts:
+                            if isinstance(e, ast.Attribute) and \
+                                    isinstance(e.value, ast.Name) and \
+                                    e.value.id == 'self':
+                                stores.setdefault(e.attr, []).append((m, None))
+
+    def is_url(m, e):
+        r = prog.resolve(m.module, e)
+        return bool(r) and r[0] == 'ext' and r[1] == 'radical.utils.Url'
+
+    def feed(m, e, local, seen=frozenset()):
+        """names of the Session getters whose result the value of e is ('?':
+        something else)"""
+        if isinstance(e, ast.Name) and e.id.startswith('self.'):
+            e = ast.Attribute(value=ast.Name(id='self', ctx=ast.Load()),
+                              attr=e.id[5:], ctx=ast.Load())
+        if isinstance(e, ast.Attribute) and isinstance(e.value, ast.Name) \
+                and e.value.id == 'self':
+            if e.attr in seen:
+                return set()
+            out = set()
+            for sm, v in stores.get(e.attr, ()):
+                if v is None:
+                    out.add('?')
+                elif isinstance(v, ast.Call) and is_url(sm, v.func) and \
+                        not v.args and not v.keywords:
+                    continue                      # placeholder, overwritten
+                else:
+                    out |= feed(sm, v, True, seen | {e.attr})
+            return out or {'?'}
+        if isinstance(e, ast.Name):
+            if not local or ('name', e.id) in seen:
+                return {'?'}
+            defs = [a.value for a in _own_nodes(m.node)
+                    if isinstance(a, ast.Assign) and
+                    any(isinstance(t, ast.Name) and t.id == e.id
+                        for t in a.targets)]
+            if not defs:
+                return {'?'}
+            out = set()
+            for v in defs:
+                out |= feed(m, v, True, seen | {('name', e.id)})
+            return out
+        if isinstance(e, ast.Call):
+            if isinstance(e.func, ast.Attribute) and \
+                    e.func.attr in PILOT_GETTER.values() and \
+                    prog.find_method(session, e.func.attr) is not None:
+                return {e.func.attr}
+            fn = dotted(e.func)
+            if (is_url(m, e.func) or fn in COPIES) and len(e.args) == 1 \
+                    and not e.keywords:
+                return feed(m, e.args[0], local, seen)
+        return {'?'}
+
+    # the methods which bind context dicts to instance attributes
+    evals = {}
+
+    def attr_dicts():
+        if 'done' in evals:
+            return evals['done']
+        seed = {}
+        for name, m in sorted(methods.items()):
+            if name in PILOT_PWD_METHODS:
+                continue
+            binds = any(isinstance(v, (ast.Dict, ast.Call, ast.BinOp))
+                        for a, vs in stores.items()
+                        for sm, v in vs if sm is m and v is not None)
+            if not binds:
+                continue
+            ev = SelfCtxEval(prog, m, cls)
+            for k, d in ev.dicts.items():
+                if k.startswith('self.'):
+                    if k in seed:
+                        raise AnalysisError(
+                            'UNRECOGNISED-IDIOM %s: the dict `%s` is bound in '
+                            'more than one method' % (m.where, k))
+                    seed[k] = (m, d)
+        evals['done'] = seed
+        return seed
+
+    for mname in sorted(PILOT_PWD_METHODS):
+        f = prog.method(PILOT[0], PILOT[1], mname)
+        seed = attr_dicts()
+        ev = SelfCtxEval(prog, f, cls,
+                         seed={k: d for k, (m, d) in seed.items()})
+        roles = {}
+        for c in calls_in(ev.tree):
+            callee = prog.resolve_call(f, c, cls)
+            if callee is None or callee.module.rel != SD:
+                continue
+            if callee.name == 'complete_url':
+                ctx = kwarg(c, 'context', 1)
+                what = kwarg(c, 'path', 0)
+                if ctx is None or what is None:
+                    continue
+                org = _origin_keys(f, what)
+                if not org & {'source', 'target'}:
+                    raise AnalysisError(
+                        'UNRECOGNISED-IDIOM %s: `%s` completes neither a '
+                        'directive source nor a target' % (f.where,
+                                                           short(c, 60)))
+                roles.setdefault('tgt' if 'target' in org else 'src',
+                                 []).append((c, ctx))
+            elif callee.name == 'expand_staging_directives':
+                for role, kw, pos in (('src', 'src_context', 1),
+                                      ('tgt', 'tgt_context', 2)):
+                    ctx = kwarg(c, kw, pos)
+                    if ctx is not None and not (
+                            isinstance(ctx, ast.Constant) and
+                            ctx.value is None):
+                        roles.setdefault(role, []).append((c, ctx))
+        for role in ('src', 'tgt'):
+            part = 'source' if role == 'src' else 'target'
+            if role not in roles:
+                rep.bad(rid, f, '%s:not completed' % role,
+                        'Pilot.%s does not complete the %s of its directives '
+                        'with a context: sandbox schemas and relative paths '
+                        'reach the stager unresolved' % (mname, part), f.loc(),
+                        history="pilot.%s([{'source': 'a.dat', 'target': "
+                        "'b.dat'}])" % mname)
+                continue
+            for c, ctx in roles[role]:
+                table = ev.as_dict(ctx)
+                if table is None or '?' in table:
+                    raise AnalysisError(
+                        'UNRECOGNISED-IDIOM %s: the %s context `%s` %s'
+                        % (f.where, role, short(ctx, 40),
+                           'is not built as a dict the recogniser can follow'
+                           if table is None else 'has computed keys'))
+                owner = f
+                if isinstance(ctx, ast.Name) and ctx.id in seed and \
+                        table == seed[ctx.id][1]:
+                    owner = seed[ctx.id][0]
+                want = dict(PILOT_GETTER)
+                want['pwd'] = PILOT_GETTER[PILOT_PWD[(mname, role)]]
+                for k, getter in sorted(want.items()):
+                    what = 'Pilot.%s %s context `%s`: %r is fed by Session.%s' \
+                        % (mname, role, short(ctx, 30), k, getter)
+                    if k not in table:
+                        rep.bad(rid, f, '%s:%s missing' % (role, k),
+                                'Pilot.%s: the context `%s` which completes '
+                                'the %s of a directive has no entry %r: %s'
+                                % (mname, short(ctx, 30), part, k,
+                                   'a relative path is resolved against the '
+                                   'working directory of the process'
+                                   if k == 'pwd' else
+                                   'URLs with schema %s:// are left '
+                                   'unresolved' % k), f.loc(c),
+                                history="pilot.%s with a directive whose %s "
+                                "is %s" % (mname, part, "'data/x.dat'"
+                                           if k == 'pwd' else
+                                           "'%s:///x.dat'" % k))
+                        continue
+                    got = feed(owner, table[k][1], True)
+                    if '?' in got:
+                        raise AnalysisError(
+                            'UNRECOGNISED-IDIOM %s: entry %r of the context '
+                            '`%s` (`%s`) is not a value handed out by a '
+                            'Session sandbox getter'
+                            % (f.where, k, short(ctx, 30),
+                               short(table[k][1], 40)))
+                    if k == 'pwd':
+                        side = PILOT_PWD[(mname, role)]
+                        other = 'pilot' if side == 'client' else 'client'
+                        rep.check(got == {getter}, rid, f, what,
+                                  construct='%s:pwd' % role,
+                                  message='Pilot.%s completes the %s of a '
+                                  'directive (`%s`) with the context `%s` '
+                                  'whose `pwd` is the value of Session.%s; '
+                                  'documented is the %s sandbox '
+                                  '(Session.%s): a %s without schema is '
+                                  'looked up relative to the wrong '
+                                  'sandbox (explicit schemas resolve the '
+                                  'same in both contexts)'
+                                  % (mname, part, short(c, 60),
+                                     short(ctx, 30),
+                                     ' / '.join(sorted(got)), side, getter,
+                                     part), loc=f.loc(c),
+                                  history="pilot.%s([{'source': "
+                                  "'results.dat', 'target': 'fetched/"
+                                  "results.dat'}]): the relative %s is "
+                                  "resolved against the %s sandbox instead "
+                                  "of the %s sandbox"
+                                  % (mname, part, other, side))
+                    else:
+                        rep.check(got == {getter}, rid, f, what,
+                                  construct='%s:%s' % (role, k),
+                                  message='Pilot.%s: entry %r of the %s '
+                                  'context `%s` is the value of Session.%s, '
+                                  'documented is Session.%s: %s:// URLs '
+                                  'resolve to another sandbox'
+                                  % (mname, k, role, short(ctx, 30),
+                                     ' / '.join(sorted(got)), getter, k),
+                                  loc=f.loc(c),
+                                  history="pilot.%s with a directive whose "
+                                  "%s is '%s:///x.dat'" % (mname, part, k))
+
+
+PILOT_PWD_METHODS = {m for m, _ in PILOT_PWD}
+
+
 KEY_HISTORY = {
     'stage_on_error': 'a task with stage_on_error=True and output_staging '
         'directives which exits non-zero: the agent output stager skips the '
@@ -4923,6 +5320,7 @@ def run(prog, rep, tier):
     # worker inside the loop, which records the error on that task and hands
     # that task on as FAILED), re-evaluated here for the four stagers
     rep.attempt(r11_16, prog, rep)
+    rep.attempt(r11_17, prog, rep)
     if tier == 'thorough':
         r11_4s(prog, rep)
         r11_6b(prog, rep, rid='R11.6s', sweep=True)
